@@ -15,6 +15,7 @@
 #include <streambuf>
 #include <string>
 #include <string_view>
+#include <sys/mman.h>
 #include <type_traits>
 #include <utility>
 #include <vector>
@@ -129,6 +130,8 @@ struct Ctx {
   bool correlated = false;    // operands of equal type are copies (or negations) of each other in this execution
   std::uint64_t exec_id = 0;  // unique per execution (warm/E0/E1 ...), used to scope the correlated-operand memo
   int vclass = -1;            // >=0: every number drawn in this op comes from that one special class (uniform operands)
+  int huge = 0;               // >0: every std::string_view operand is the huge view number `huge` (2^31 or 2^32+5 bytes)
+  bool huge_strings = false;  // ... and std::string operands made by arbitrary_bytes() are copies of it
   long forced[2] = {-1, -1};  // explicit selectors (enumerator / literal index) for exhaustive sweeps
   int forced_used = 0;
   std::ostream* os = nullptr;  // stream for this execution (scratch or a slot)
@@ -244,7 +247,26 @@ inline constexpr const char* kNumberGrammar[] = {
     "١٢٣", "１２", "1\xC2\xA0", "1 2", "(1)", "1f", "1L", "0b101", "0o7", "TRUE", "null"};
 inline constexpr int kNumberGrammarSize = static_cast<int>(sizeof(kNumberGrammar) / sizeof(kNumberGrammar[0]));
 
+// Huge text operands: a view of 2^31 bytes (INT_MAX + 1) or 2^32 + 5 bytes (UINT_MAX + 6) over a sparse anonymous
+// mapping (untouched pages read as NUL and cost no memory; a few bytes of text at both ends).  A size kept in an
+// int or a 32-bit unsigned somewhere inside the library shows up as std::length_error, a short buffer or a wild index.
+inline std::string_view huge_view(int which) {
+  static char* base = nullptr;
+  constexpr size_t kMax = (static_cast<size_t>(1) << 32) + 5;
+  if (base == nullptr) {
+    void* p = ::mmap(nullptr, kMax + 8192, PROT_READ | PROT_WRITE, MAP_PRIVATE | MAP_ANONYMOUS | MAP_NORESERVE, -1, 0);
+    if (p == MAP_FAILED) throw std::bad_alloc();
+    base = static_cast<char*>(p);
+    static const char head[] = "Metre Per Second  12.5e3 kg\xC2\xB7m/s^2 AbC";
+    std::memcpy(base + 1, head, sizeof head - 1);
+  }
+  const size_t n = which == 1 ? (static_cast<size_t>(1) << 31) : kMax;
+  std::memcpy(base + 1 + n - 4, "XyZ9", 4);
+  return std::string_view(base + 1, n);
+}
+
 inline std::string arbitrary_bytes(Ctx& c) {
+  if (c.huge > 0 && c.huge_strings) return std::string(huge_view(c.huge));
   static const int lens[] = {0, 1, 1, 2, 3, 4, 5, 8, 15, 16, 17, 31, 64, 200, 255, 256, 257, 1000, 5000};
   size_t n = static_cast<size_t>(lens[c.below((c.small_sizes || c.below(8)) ? 14 : 19)]);
   if (!c.small_sizes && c.below(24) == 0 && kNInterestingSizes > 0) {
@@ -309,6 +331,7 @@ inline std::string mutate(Ctx& c, const std::string& in) {
 }
 
 inline std::string number_like(Ctx& c) {
+  if (c.huge > 0 && c.huge_strings) return arbitrary_bytes(c);
   switch (c.below(6)) {
     case 0: case 1: return kNumberGrammar[c.below(static_cast<std::uint64_t>(kNumberGrammarSize))];
     case 2: return mutate(c, kNumberGrammar[c.below(static_cast<std::uint64_t>(kNumberGrammarSize))]);
@@ -330,6 +353,7 @@ inline std::string number_like(Ctx& c) {
 // A view of exactly s.size() bytes at offset 0..7 of an exact-sized heap buffer: no terminating NUL behind it and no
 // 8-byte alignment, unlike a std::string -- an over-read is an ASan report, a word-wise load a UBSan alignment report.
 inline std::string_view exact_view(Ctx& c, const std::string& s) {
+  if (c.huge > 0) return huge_view(c.huge);
   const size_t off = static_cast<size_t>(c.next() % 8);
   std::unique_ptr<char[]>& b = c.sv_buf[c.sv_used++ % 4];
   const size_t total = off + s.size();
@@ -518,7 +542,13 @@ inline void consume(Ctx& c, const X& x) {
     c.bytes(b, static_cast<size_t>(n));
   } else if constexpr (std::is_convertible<const X&, std::string_view>::value) {
     std::string_view s(x);
-    c.bytes(s.data(), s.size());
+    if (s.size() > (static_cast<size_t>(1) << 20)) {  // huge text: the ends and the length
+      c.bytes(s.data(), 4096);
+      c.bytes(s.data() + s.size() - 4096, 4096);
+      consume(c, s.size());
+    } else {
+      c.bytes(s.data(), s.size());
+    }
     c.bytes("|", 1);
     if (c.text.size() < 256) c.text.append(s.substr(0, 256 - c.text.size()));
   } else if constexpr (is_optional<X>::value) {
@@ -542,6 +572,30 @@ inline void consume(Ctx& c, const X& x) {
   } else if constexpr (has_Print<X>::value) {
     consume(c, x.Print());  // Dimensions, models
     if constexpr (has_GetType<X>::value) consume(c, x.GetType());
+  } else {
+    c.bytes("?", 1);
+  }
+}
+
+// A result that consume() has no canonical form for but that can be inserted into a std::ostream (a stream manipulator
+// object): insert it into the op's stream, as its user would.
+template <class X, class = void> struct is_streamable : std::false_type {};
+template <class X> struct is_streamable<X, std::void_t<decltype(std::declval<std::ostream&>() << std::declval<const X&>())>> : std::true_type {};
+template <class X>
+constexpr bool consumable() {
+  return std::is_arithmetic<X>::value || std::is_enum<X>::value || std::is_convertible<const X&, std::string_view>::value || is_optional<X>::value ||
+         has_xx_xy_xz_yx_yy_yz_zx_zy_zz<X>::value || has_xx_xy_xz_yy_yz_zz<X>::value || has_x_y_z<X>::value || has_x_y<X>::value || has_Value<X>::value ||
+         has_begin<X>::value || has_Print<X>::value;
+}
+template <class X>
+inline void consume_or_stream(Ctx& c, const X& x) {
+  if constexpr (consumable<X>()) {
+    consume(c, x);
+  } else if constexpr (is_streamable<X>::value) {
+    if (c.os != nullptr) {
+      { Count k; (*c.os) << x; }
+      consume(c, static_cast<int>(c.os->rdstate()));
+    }
   } else {
     c.bytes("?", 1);
   }
@@ -576,10 +630,13 @@ struct OpEntry {
   const char* name;  // stable instance name (used in plans and replay files)
   OpFn fn;
   int which;
-  int flags;  // bit0: uses the stream; bit1: parser (must never throw)
+  int flags;  // bit0: uses the stream; bit1: parser (must never throw); bit2/3: text operands
 };
 constexpr int kUsesStream = 1;
 constexpr int kParser = 2;
+constexpr int kText = 4;         // takes std::string_view / std::string operands (also run with huge operands)
+constexpr int kTextString = 8;
+constexpr int kManipulator = 16; // the result is inserted into the op's stream and changes what later insertions print   // ... only as std::string (the huge operand has to be a real copy)
 struct OpTable {
   const OpEntry* entries;
   int count;
